@@ -200,8 +200,9 @@ CHECKS = [
               'run on Fractions (sqrt(h) handled by an exact-root number class), all streams compared with the model.',
          note='H^{1/2}: for polynomial integrands within the exactness range the routine is PROVED equal to the double integral '
               'int_a^b int_a^b ((f x - f y)/(x - y))^2 dy dx (Props/C14Integral.lean, Mathlib interval integrals); H^{1/4}: '
-              'identification of the rule-independent value with the improper double integral (Duffy substitution, non-polynomial '
-              'integrand) stays in the trusted base; twelve digits in binary64 and the corner case against a graded reference are search-only'),
+              'sqrt(h) * routine PROVED equal to int_a^{a+h} int_a^{a+h} (f x - f y)^2 / |x - y|^{3/2} for polynomial data within the '
+              'exactness range, 0 < h (Props/C14Integral14.lean: weighted reference form, two substitutions, Fubini on the triangle; '
+              'C14Integral14Gen.lean for the regenerated code); twelve digits in binary64 and the corner case against a graded reference are search-only'),
     dict(id='C16', design_ref='DESIGN.md section 6 / C16', category='proof',
          technique='Lean 4 invariant proof over all refinement sequences + boundary-targeting theorem + state-dump correspondence of the real InitialMesh',
          text='Proof: the quadtree invariant (half-open tiling of the domain by dyadic squares, 2:1 balance across edges, unique '
